@@ -13,7 +13,8 @@
 //   DB <i> <tickhex|->     create installation i's dictionary "dict" (user id u<i>)
 //   ENT <i> <keyhex> <valuehex>
 //   FILE <s> <hex|->       write text file slot s
-//   OP backup i | restore i j | sync i | export i s | import i s | merge i j | ubackup i s | urestore i s
+//   SHOW                   dump every dictionary ("I <case> db0 <dump> | db1 ...")
+//   OP backup i | restore i j | restoref i s | sync i | export i s | import i s | merge i j | ubackup i s | urestore i s
 //   PAINT                  fill the stack below the current frame with g before every later op
 //   END                    dump everything
 //   U <hex>                UserDbValue::Unpack on a default value:  "U <ok> <commits> <tick>"
@@ -135,6 +136,13 @@ static std::string do_op(const std::vector<std::string>& f) {
     } else {
       UserDictManager mgr(&deployer);
       ret << (mgr.Restore(path(snap_path(x))) ? 1 : 0);
+    }
+  } else if (name == "restoref") {
+    if (!fs::exists(file_slot(x))) {
+      ret << "nofile";
+    } else {
+      UserDictManager mgr(&deployer);
+      ret << (mgr.Restore(path(file_slot(x))) ? 1 : 0);
     }
   } else if (name == "sync") {
     std::string order;
@@ -274,6 +282,11 @@ int main(int argc, char** argv) {
       vh::write_file(file_slot(std::stoi(f[1])).string(), unhexo(f[2]));
     } else if (f[0] == "PAINT") {
       g_paint = true;
+    } else if (f[0] == "SHOW") {
+      std::cout << "I " << cid;
+      for (size_t k = 0; k < users.size(); ++k)
+        std::cout << (k ? " |" : "") << " db" << users[k] << " " << dump_db(users[k]);
+      std::cout << "\n";
     } else if (f[0] == "OP") {
       std::string r = do_op(f);
       std::cout << "O " << cid << " " << opidx++ << " " << r << " db" << f[2] << " " << dump_db(std::stoi(f[2])) << "\n";
